@@ -21,6 +21,7 @@ func init() {
 			c.run("C02-6", "GUARD-DOM: decode failures are errors (unknown escape code, leftover bytes, reader error cancels)", c02Decode)
 			c.run("C02-7", "GUARD-DOM: EOF before the announced length is an error", c02ShortSource)
 			c.run("C02-9", "GUARD-DOM: after a resume the receiver cross-checks the sender's remaining size against its own truncation offset", c02Resume)
+			c.run("C02-10", "WHO-CALLS: the receiving side's file writer hands every Write to the file itself", c02DirectWrite)
 			c.run("C02-10", "GUARD-DOM: protocol-1 data loops send/write, hash and count the same chunk and stop at the announced size", c02V1Stream)
 			c.run("C02-11", "GUARD-DOM (interprocedural): no acknowledgement of the MD5 step before the digest comparison", c02AckAfterVerify)
 			c.run("C02-12", "SIBLING/LITERAL: the per-chunk ack line — separator, order of the two numbers, base and width", c02AckFormat)
@@ -1353,4 +1354,33 @@ func factCmpAnywhere(f *ssa.Function, op token.Token, px, py func(ssa.Value) boo
 		}
 	}
 	return false
+}
+
+// c02DirectWrite: every stage that saves received data counts bytes as saved (and acknowledges them) when the file
+// writer's Write returned nil, and drops the result of Close. That is sound only while nil means "the file took the
+// bytes": simpleFileWriter.Write must return what (*os.File).Write on its own file returned — a buffer in front of the
+// file turns a full disk into a successful transfer of a truncated file.
+func c02DirectWrite(c *Ctx) {
+	f := c.fn("simpleFileWriter.Write")
+	n := 0
+	eachInstr(f, func(in ssa.Instruction) {
+		r, ok := in.(*ssa.Return)
+		if !ok || len(r.Results) != 2 {
+			return
+		}
+		n++
+		good := true
+		for i := 0; i < 2; i++ {
+			for _, l := range origins(retVal(r, i), originOpts{}) {
+				call, _ := callOf(l.V)
+				if call == nil || calleeID(&call.Call) != "(*os.File).Write" || !isFieldLoad("file")(call.Call.Args[0]) {
+					good = false
+				}
+			}
+		}
+		c.check(good, "simpleFileWriter.Write/straight-to-file", c.ipos(r), "Write returns what the file's own Write returned", "the receiving file writer no longer hands each Write straight to the file: 'nil' means accepted, not written, and a write failure that surfaces later is lost (Close results are dropped)")
+	})
+	if n == 0 {
+		c.undecided("simpleFileWriter.Write/straight-to-file", "no return found")
+	}
 }
